@@ -77,6 +77,41 @@ def _far_job(k):
     return {"k": k, "bad": bad, "errs": errs}
 
 
+def _mphys_model_promoted(sc, emitted):
+    """The wrapper groups wired the way an MPhys aerodynamic scenario wires them: everything promoted, variables meet by name."""
+    from mphys.core import MPhysVariables
+
+    from openaerostruct.mphys.aero_funcs_group import AeroFuncsGroup
+    from openaerostruct.mphys.aero_solver_group import AeroSolverGroup
+    from openaerostruct.mphys.demux_surface_mesh import DemuxSurfaceMesh
+    from openaerostruct.mphys.mux_surface_forces import MuxSurfaceForces
+
+    FV = MPhysVariables.Aerodynamics.FlowConditions
+    X = MPhysVariables.Aerodynamics.Surface.COORDINATES
+    m = laws.model_of(sc)
+    dicts = m.dicts
+    prob = om.Problem(reports=False)
+    ivc = om.IndepVarComp()
+    flat = np.zeros(3 * sum(d["mesh"].shape[0] * d["mesh"].shape[1] for d in dicts))
+    for tab, d in zip(emitted["tables"], dicts):
+        flat[np.array(tab["src"])] = d["mesh"].reshape(-1)
+    f = sc.flow
+    ivc.add_output(X, val=flat, units="m")
+    ivc.add_output(FV.ANGLE_OF_ATTACK, val=f["alpha"], units="deg")
+    ivc.add_output(FV.YAW_ANGLE, val=f["beta"], units="deg")
+    ivc.add_output(FV.MACH_NUMBER, val=f["Mach_number"])
+    ivc.add_output(FV.REYNOLDS_NUMBER, val=f["re"], units="1/m")
+    ivc.add_output("v", val=f["v"], units="m/s")
+    ivc.add_output("rho", val=f["rho"], units="kg/m**3")
+    ivc.add_output("cg", val=np.array(f["cg"]), units="m")
+    prob.model.add_subsystem("ivc", ivc, promotes=["*"])
+    prob.model.add_subsystem("demux", DemuxSurfaceMesh(surfaces=dicts), promotes=["*"])
+    prob.model.add_subsystem("states", AeroSolverGroup(surfaces=dicts, compressible=sc.compressible), promotes=["*"])
+    prob.model.add_subsystem("mux", MuxSurfaceForces(surfaces=dicts), promotes=["*"])
+    prob.model.add_subsystem("funcs", AeroFuncsGroup(surfaces=dicts, write_solution=False), promotes=["*"])
+    return prob, dicts
+
+
 def _mphys_model(sc, emitted):
     from mphys.core import MPhysVariables
 
@@ -144,9 +179,6 @@ def _mphys_job(a):
         raise MachineryError("no topology emitted for mphys job")
     em = em[0]
     ob = laws.observe(sc)
-    prob, dicts, fa = _mphys_model(sc, em)
-    prob.setup(mode=mode)
-    prob.run_model()
     bad = []
 
     def cmp(name, a_, b_, tol=1e-10, floor=1e-3):
@@ -156,6 +188,28 @@ def _mphys_job(a):
         if not e <= tol:
             bad.append(("mphys:%s" % name, {"err": e}))
 
+    # the same wrappers wired by promotion (as an MPhys scenario does): a flow variable that a group no longer picks up by name
+    # stays at its default silently
+    pp, pdicts = _mphys_model_promoted(sc, em)
+    pp.setup(mode=mode)
+    for d_ in pdicts:
+        pp.set_val(d_["name"] + ".t_over_c", np.full(d_["mesh"].shape[1] - 1, float(np.real(d_["t_over_c_cp"][0]))))
+    pp.run_model()
+    cmp("promoted:CL", pp.get_val("CL"), ob["CL"])
+    cmp("promoted:CD", pp.get_val("CD"), ob["CD"])
+    cmp("promoted:CM", pp.get_val("CM"), ob["CM"])
+    try:
+        prob, dicts, fa = _mphys_model(sc, em)
+        prob.setup(mode=mode)
+        prob.run_model()
+    except RuntimeError as e:
+        from ..common import _internal_connection_error
+
+        why = _internal_connection_error(str(e))
+        if not why:
+            raise
+        bad.append(("mphys:setup:%s" % why, {"message": str(e)[:300]}))
+        return {"k": k, "mode": mode, "bad": bad, "cls": cls}
     cmp("CL", prob.get_val("funcs.CL"), ob["CL"])
     cmp("CD", prob.get_val("funcs.CD"), ob["CD"])
     cmp("CM", prob.get_val("funcs.CM"), ob["CM"])
